@@ -117,16 +117,19 @@ Proof. destruct x; cbn; [apply aid_le_refl | exact I]. Qed.
 Definition owner_inv (st : qchannel) : Prop :=
   (qc_ready st = true -> exists a, qc_auth st = Some a /\ a_wf a = false) /\
   (qc_pending st <> None -> qc_ready st = true) /\
-  (forall c r, get_retained (qc_retained st) c = Some r ->
-     qc_ready st = true /\ exists a, qc_auth st = Some a /\ rc_auth (rt_receipt r) = a_id a).
+  (qc_retained st <> [] -> qc_ready st = true) /\
+  (forall a, qc_auth st = Some a ->
+     Forall (fun p => rc_auth (rt_receipt (snd p)) = a_id a) (qc_retained st)).
 
 Lemma owner_inv_empty : owner_inv qchannel_empty.
 Proof.
-  repeat split; cbn; intros; try discriminate; try congruence.
+  split; [|split; [|split]]; cbn; intros; try discriminate; try congruence; constructor.
 Qed.
 
 Lemma owner_inv_fence a : owner_inv (fenceQuorumChannel a).
-Proof. repeat split; cbn; intros; try discriminate; congruence. Qed.
+Proof.
+  split; [|split; [|split]]; cbn; intros; try discriminate; try congruence; constructor.
+Qed.
 
 (* ---- Install ----------------------------------------------------------------------------------- *)
 
@@ -198,7 +201,7 @@ Proof.
         -- inversion H; subst. eapply IS_fenced_same; eauto.
         -- destruct (qc_ready st) eqn:Hr.
            ++ inversion H; subst. eapply IS_idempotent; eauto.
-           ++ apply (Hadm st); [eapply IB_same; eauto|]. rewrite Hwf. exact H.
+           ++ apply (Hadm st); [eapply IB_same; eauto|]. exact H.
       * inversion H; subst. eapply IS_conflict; eauto.
     + apply compare_Lt in Hc. inversion H; subst. eapply IS_stale; eauto.
     + apply compare_Gt in Hc. apply (Hadm (fenceQuorumChannel a)); [eapply IB_higher; eauto|]. exact H.
@@ -217,15 +220,13 @@ Lemma install_base_auth st a st1 :
                                      (owner_inv st -> owner_inv st1).
 Proof.
   intros H. destruct H as [cur Ha Hid Hs Hr | cur Ha Hlt | Ha].
-  - exists cur. repeat split; auto.
-    + symmetry. apply sameAuthority_wf. exact Hs.
-    + rewrite Ha. cbn. apply aid_le_refl.
-  - exists a. cbn. repeat split; auto.
-    + rewrite Ha. cbn. left. exact Hlt.
-    + intros _. apply owner_inv_fence.
-  - exists a. cbn. repeat split; auto.
-    + rewrite Ha. exact I.
-    + intros _. apply owner_inv_fence.
+  - exists cur. split; [exact Ha|]. split; [auto|].
+    split; [symmetry; apply sameAuthority_wf; exact Hs|].
+    split; [rewrite Ha; cbn; apply aid_le_refl|]. split; [exact Hr|]. auto.
+  - exists a. cbn. split; [reflexivity|]. split; [reflexivity|]. split; [reflexivity|].
+    split; [rewrite Ha; cbn; left; exact Hlt|]. split; [reflexivity|]. intros _. apply owner_inv_fence.
+  - exists a. cbn. split; [reflexivity|]. split; [reflexivity|]. split; [reflexivity|].
+    split; [rewrite Ha; exact I|]. split; [reflexivity|]. intros _. apply owner_inv_fence.
 Qed.
 
 (* the installed authority of an owner never decreases *)
@@ -254,6 +255,41 @@ Proof.
   all: exact (aid_lt_irrefl _ (aid_lt_trans _ _ _ Hlt Hlt')).
 Qed.
 
+(* inversion of install_shape by the kind of result *)
+Lemma install_shape_ok st a n n' st' x leo hw :
+  install_shape st a n n' st' (IOk x leo hw) ->
+  (exists cur, qc_auth st = Some cur /\ a_id a = a_id cur /\ sameAuthority a cur = true /\ a_wf a = false /\
+               qc_ready st = true /\ st' = st /\ n' = n /\ x = a_id cur) \/
+  (exists st1 fr, install_base st a st1 /\ a_wf a = false /\
+                  st' = QChan (qc_auth st1) fr (rs_leo fr) true None [] [] /\ x = a_id a).
+Proof.
+  intro H. remember (IOk x leo hw) as r eqn:Hr.
+  destruct H as [ | cur Ha Hlt | cur Ha Hid Hs | cur Ha Hid Hs Hwf | cur Ha Hid Hs Hwf Hrd
+                  | st1 Hb Hwf | st1 n' e Hb Hwf | st1 n' fr Hb Hwf]; try discriminate; inversion Hr; subst.
+  - left. exists cur. repeat (split; [assumption || reflexivity|]). reflexivity.
+  - right. exists st1, fr. repeat (split; [assumption || reflexivity|]). reflexivity.
+Qed.
+
+Lemma install_shape_err st a n n' st' e :
+  install_shape st a n n' st' (IErr e) ->
+  (st' = st /\ n' = n /\
+     (e = EInvalid \/
+      (exists cur, qc_auth st = Some cur /\ aid_lt (a_id a) (a_id cur) /\ e = EStale) \/
+      (exists cur, qc_auth st = Some cur /\ a_id a = a_id cur /\ sameAuthority a cur = false /\ e = EConflict) \/
+      (exists cur, qc_auth st = Some cur /\ a_id a = a_id cur /\ sameAuthority a cur = true /\ a_wf a = true /\ e = EFenced))) \/
+  (install_base st a st' /\ ((a_wf a = true /\ e = EFenced /\ n' = n) \/ a_wf a = false)).
+Proof.
+  intro H. remember (IErr e) as r eqn:Hr.
+  destruct H as [ | cur Ha Hlt | cur Ha Hid Hs | cur Ha Hid Hs Hwf | cur Ha Hid Hs Hwf Hrd
+                  | st1 Hb Hwf | st1 n' e' Hb Hwf | st1 n' fr Hb Hwf]; try discriminate; inversion Hr; subst.
+  - left. auto.
+  - left. split; [reflexivity|]. split; [reflexivity|]. right. left. exists cur. auto.
+  - left. split; [reflexivity|]. split; [reflexivity|]. right. right. left. exists cur. auto.
+  - left. split; [reflexivity|]. split; [reflexivity|]. right. right. right. exists cur. auto.
+  - right. split; [assumption|]. left. auto.
+  - right. split; [assumption|]. right. assumption.
+Qed.
+
 (* a successful Install answers the requested authority, which carries no fence and is
    not older than the previous one; the owner is then ready under exactly that authority *)
 Lemma Install_ok cfg n st local a n' st' x leo hw :
@@ -262,52 +298,546 @@ Lemma Install_ok cfg n st local a n' st' x leo hw :
   (exists b, qc_auth st' = Some b /\ a_id b = a_id a /\ a_wf b = false) /\
   (forall cur, qc_auth st = Some cur -> aid_le (a_id cur) (a_id a)).
 Proof.
-  intro H. apply Install_shape in H. inversion H; subst.
-  - (* idempotent *)
-    repeat split; auto.
-    + exists cur. repeat split; auto. rewrite <- (sameAuthority_wf _ _ H6). assumption.
-    + intros c Hc. rewrite H4 in Hc. inversion Hc; subst. rewrite H5. apply aid_le_refl.
-  - destruct (install_base_auth _ _ _ H4) as (b & Hb1 & Hb2 & Hb3 & Hle & _ & _).
-    repeat split; auto.
-    + exists b. cbn. repeat split; auto. congruence.
+  intro H. apply Install_shape in H. apply install_shape_ok in H.
+  destruct H as [(cur & Ha & Hid & Hs & Hwf & Hrd & -> & -> & ->) | (st1 & fr & Hb & Hwf & -> & ->)].
+  - split; [symmetry; exact Hid|]. split; [exact Hwf|]. split; [exact Hrd|]. split.
+    + exists cur. split; [exact Ha|]. split; [symmetry; exact Hid|].
+      rewrite <- (sameAuthority_wf _ _ Hs). exact Hwf.
+    + intros c Hc. rewrite Ha in Hc. inversion Hc; subst. rewrite Hid. apply aid_le_refl.
+  - destruct (install_base_auth _ _ _ Hb) as (b & Hb1 & Hb2 & Hb3 & Hle & _ & _).
+    split; [reflexivity|]. split; [exact Hwf|]. split; [reflexivity|]. split.
+    + exists b. cbn. split; [exact Hb1|]. split; [exact Hb2|]. congruence.
     + intros c Hc. rewrite Hc, Hb1 in Hle. cbn in Hle. rewrite Hb2 in Hle. exact Hle.
 Qed.
 
-(* a fenced authority is never installed *)
+(* a fenced authority is never installed, and the attempt touches no replica *)
 Lemma Install_fenced_fails cfg n st local a n' st' r :
   a_wf a = true -> Install cfg n st local a = (n', st', r) -> exists e, r = IErr e /\ n' = n.
 Proof.
-  intros Hwf H. apply Install_shape in H. inversion H; subst; try congruence; eauto.
+  intros Hwf H. apply Install_shape in H. destruct r as [e | x leo hw].
+  - exists e. split; [reflexivity|]. apply install_shape_err in H.
+    destruct H as [(_ & Hn & _) | (_ & [(_ & _ & Hn) | Hf])]; auto. congruence.
+  - exfalso. apply install_shape_ok in H.
+    destruct H as [(cur & _ & _ & _ & Hf & _) | (st1 & fr & _ & Hf & _)]; congruence.
 Qed.
 
-(* a failed Install leaves the owner not ready whenever it changed it, and in every case a
-   ready owner after Install is ready under an authority with the requested id or was untouched *)
 Lemma Install_preserves_inv cfg n st local a n' st' r :
   owner_inv st -> Install cfg n st local a = (n', st', r) -> owner_inv st'.
 Proof.
-  intros Hinv H. apply Install_shape in H.
-  destruct H; auto;
-    match goal with Hb : install_base _ _ _ |- _ =>
-      destruct (install_base_auth _ _ _ Hb) as (b & Hb1 & Hb2 & Hb3 & _ & Hnr & Hk) end; auto.
-  (* success *)
-  repeat split; cbn; intros; try discriminate; try congruence.
-  exists b. split; auto. congruence.
+  intros Hinv H. apply Install_shape in H. destruct r as [e | x leo hw].
+  - apply install_shape_err in H. destruct H as [(-> & _) | (Hb & _)]; [exact Hinv|].
+    destruct (install_base_auth _ _ _ Hb) as (b & _ & _ & _ & _ & _ & Hk). auto.
+  - apply install_shape_ok in H.
+    destruct H as [(cur & _ & _ & _ & _ & _ & -> & _) | (st1 & fr & Hb & Hwf & -> & _)]; [exact Hinv|].
+    destruct (install_base_auth _ _ _ Hb) as (b & Hb1 & Hb2 & Hb3 & _ & _ & _).
+    split; [|split; [|split]]; cbn; intros; try discriminate; try congruence; try constructor.
+    exists b. split; [exact Hb1|]. congruence.
 Qed.
 
 (* after a higher (or first) authority reached the admission step, the owner stays fenced
-   under it even when recovery fails: not ready, authority = the new one *)
+   under it even when recovery, repair or the barrier fails: not ready, authority = the new one *)
 Lemma Install_failed_higher_fences cfg n st local a n' st' e :
   (forall cur, qc_auth st = Some cur -> aid_lt (a_id cur) (a_id a)) ->
   Install cfg n st local a = (n', st', IErr e) ->
   (st' = st /\ n' = n /\ e = EInvalid) \/ (qc_auth st' = Some a /\ qc_ready st' = false).
 Proof.
-  intros Hhi H. apply Install_shape in H. inversion H; subst; auto.
-  1-4: exfalso; match goal with Hq : qc_auth st = Some ?c |- _ => specialize (Hhi _ Hq) end.
-  - exact (aid_lt_irrefl _ (aid_lt_trans _ _ _ Hhi H5)).
-  - rewrite H5 in Hhi. exact (aid_lt_irrefl _ Hhi).
-  - rewrite H5 in Hhi. exact (aid_lt_irrefl _ Hhi).
-  - right. destruct H4 as [cur Ha Hid _ _ | cur Ha Hlt | Ha]; cbn; auto.
+  intros Hhi H. apply Install_shape in H. apply install_shape_err in H.
+  destruct H as [(-> & -> & [-> | [(cur & Ha & Hlt & _) | [(cur & Ha & Hid & _) | (cur & Ha & Hid & _)]]]) | (Hb & _)].
+  - left. auto.
+  - exfalso. specialize (Hhi _ Ha). exact (aid_lt_irrefl _ (aid_lt_trans _ _ _ Hhi Hlt)).
+  - exfalso. specialize (Hhi _ Ha). rewrite Hid in Hhi. exact (aid_lt_irrefl _ Hhi).
+  - exfalso. specialize (Hhi _ Ha). rewrite Hid in Hhi. exact (aid_lt_irrefl _ Hhi).
+  - right. destruct Hb as [cur Ha Hid _ _ | cur Ha Hlt | Ha]; cbn; auto.
     exfalso. specialize (Hhi _ Ha). rewrite Hid in Hhi. exact (aid_lt_irrefl _ Hhi).
-  - right. destruct H4 as [cur Ha Hid _ _ | cur Ha Hlt | Ha]; cbn; auto.
-    exfalso. specialize (Hhi _ Ha). rewrite Hid in Hhi. exact (aid_lt_irrefl _ Hhi).
+Qed.
+
+(* ---- Commit ------------------------------------------------------------------------------------- *)
+
+Lemma get_retained_In l c r : get_retained l c = Some r -> exists c', In (c', r) l.
+Proof.
+  induction l as [|[c' r'] l IH]; cbn; [discriminate|].
+  destruct (tag_eqb c c').
+  - intro H. inversion H; subst. exists c'. left. reflexivity.
+  - intro H. destruct (IH H) as [c'' Hin]. exists c''. right. exact Hin.
+Qed.
+
+Lemma Forall_del {P : tag * retained -> Prop} l c : Forall P l -> Forall P (del_retained l c).
+Proof.
+  unfold del_retained. intro H. induction H; cbn; [constructor|].
+  destruct (negb (tag_eqb (fst x) c)); [constructor|]; assumption.
+Qed.
+
+(* remember touches only the retained map / order *)
+Lemma remember_fields cfg st r :
+  qc_auth (remember cfg st r) = qc_auth st /\ qc_ready (remember cfg st r) = qc_ready st /\
+  qc_pending (remember cfg st r) = qc_pending st /\ qc_frontier (remember cfg st r) = qc_frontier st /\
+  qc_hw (remember cfg st r) = qc_hw st.
+Proof.
+  unfold remember. destruct (get_retained (qc_retained st) _); cbn.
+  - repeat split.
+  - destruct (lenN (qc_order st) =? cf_retained cfg); [destruct (qc_order st)|]; cbn; repeat split.
+Qed.
+
+Lemma remember_retained (P : tag * retained -> Prop) cfg st r :
+  Forall P (qc_retained st) -> P (m_cmd (dp_manifest (rt_prop r)), r) ->
+  Forall P (qc_retained (remember cfg st r)).
+Proof.
+  intros HF HP. unfold remember. destruct (get_retained (qc_retained st) _); cbn.
+  - constructor; [exact HP|]. apply Forall_del. exact HF.
+  - destruct (lenN (qc_order st) =? cf_retained cfg); [destruct (qc_order st)|]; cbn;
+      constructor; try exact HP; try exact HF. apply Forall_del. exact HF.
+Qed.
+
+(* agreement of two owner states on everything admission looks at *)
+Definition same_admission (st st' : qchannel) : Prop :=
+  qc_auth st' = qc_auth st /\ qc_ready st' = qc_ready st.
+
+Lemma same_admission_refl st : same_admission st st.
+Proof. split; reflexivity. Qed.
+
+(* the receipts a state can hand out all carry authority [x] *)
+Definition retained_auth (x : authid) (st : qchannel) : Prop :=
+  Forall (fun p => rc_auth (rt_receipt (snd p)) = x) (qc_retained st).
+
+Lemma finishCommit_facts cfg st a r res st' out :
+  finishCommit cfg st a r res = (st', out) ->
+  same_admission st st' /\
+  (qc_pending st' = None \/ st' = st) /\
+  (retained_auth (a_id a) st -> retained_auth (a_id a) st') /\
+  (forall rc, out = COk rc -> rc_auth rc = a_id a).
+Proof.
+  unfold finishCommit.
+  destruct (negb (rr_local res) || (rr_votes res <? a_q a) || negb (outcome_durable (rr_outcome res))).
+  { intro H. inversion H; subst. split; [apply same_admission_refl|]. split; [right; reflexivity|].
+    split; [auto|]. intros rc Hrc. discriminate. }
+  destruct (SealProposalManifest (dp_manifest (rt_prop r)) (dp_records (rt_prop r))) as [[m es]|].
+  2:{ intro H. inversion H; subst. split; [apply same_admission_refl|]. split; [right; reflexivity|].
+      split; [auto|]. intros rc Hrc. discriminate. }
+  intro H. inversion H; subst. clear H.
+  match goal with |- context[remember cfg ?s ?x] =>
+    destruct (remember_fields cfg s x) as (Ha & Hr & Hp & _ & _); set (st1 := s) in *; set (rr := x) in * end.
+  split; [split; [rewrite Ha | rewrite Hr]; reflexivity|].
+  split; [left; rewrite Hp; reflexivity|].
+  split.
+  - intro HF. unfold retained_auth. apply remember_retained; [exact HF | reflexivity].
+  - intros rc Hrc. inversion Hrc; subst. reflexivity.
+Qed.
+
+Lemma retryPending_facts cfg n st a local r n' st' out :
+  retryPending cfg n st a local r = (n', st', out) ->
+  same_admission st st' /\
+  (qc_pending st' = None \/ st' = st) /\
+  (retained_auth (a_id a) st -> retained_auth (a_id a) st') /\
+  (forall rc, out = COk rc -> rc_auth rc = a_id a).
+Proof.
+  unfold retryPending.
+  destruct (runDurableRound n local (a_voters a) (a_q a) (cf_rot cfg) (rt_prop r)) as [n1 res].
+  destruct (negb (rr_ok res)).
+  - intro H. inversion H; subst. split; [apply same_admission_refl|]. split; [right; reflexivity|].
+    split; [auto|]. intros rc Hrc. discriminate.
+  - destruct (finishCommit cfg st a r res) as [st2 out2] eqn:Hf. intro H. inversion H; subst.
+    eapply finishCommit_facts. exact Hf.
+Qed.
+
+Lemma loadRetainedProposal_auth cfg n st a local c r :
+  loadRetainedProposal cfg n st a local c = inr (Some r) -> rc_auth (rt_receipt r) = a_id a.
+Proof.
+  unfold loadRetainedProposal.
+  destruct (lookupCommand (nt_kind n) (net_rep n local) c (cf_maxrecs cfg)) as [e | [[m recs] |]]; try discriminate.
+  destruct (negb (StructurallyValid m) || negb (tag_eqb (m_cmd m) c) || (qc_hw st <? m_last m) ||
+            negb (m_e m =? aid_e (a_id a)) || negb (m_t m =? aid_t (a_id a)) || negb (m_f m =? aid_f (a_id a)));
+    try discriminate.
+  destruct (SealProposalManifest m recs) as [[sealed es]|]; try discriminate.
+  destruct (negb (manifest_eqb sealed m) || (lenN es =? 0)); try discriminate.
+  intro H. inversion H; subst. reflexivity.
+Qed.
+
+Lemma reconcile_facts cfg n st a local p st' out :
+  reconcileCommandConflict cfg n st a local p = (st', out) ->
+  same_admission st st' /\ qc_pending st' = qc_pending st /\
+  (retained_auth (a_id a) st -> retained_auth (a_id a) st') /\
+  (forall rc, out = COk rc -> rc_auth rc = a_id a).
+Proof.
+  unfold reconcileCommandConflict.
+  destruct (loadRetainedProposal cfg n st a local (pr_cmd p)) as [e | [loaded |]] eqn:Hl.
+  - intro H. inversion H; subst. split; [apply same_admission_refl|]. split; [reflexivity|].
+    split; [auto|]. intros rc Hrc. discriminate.
+  - destruct (negb (sameProposalContent (rt_prop loaded) (pr_records p))).
+    + intro H. inversion H; subst. split; [apply same_admission_refl|]. split; [reflexivity|].
+      split; [auto|]. intros rc Hrc. discriminate.
+    + intro H. inversion H; subst. clear H.
+      destruct (remember_fields cfg st loaded) as (Ha & Hr & Hp & _ & _).
+      pose proof (loadRetainedProposal_auth _ _ _ _ _ _ _ Hl) as Hau.
+      split; [split; assumption|]. split; [exact Hp|]. split.
+      * intro HF. unfold retained_auth. apply remember_retained; [exact HF | exact Hau].
+      * intros rc Hrc. inversion Hrc; subst. exact Hau.
+  - intro H. inversion H; subst. split; [apply same_admission_refl|]. split; [reflexivity|].
+    split; [auto|]. intros rc Hrc. discriminate.
+Qed.
+
+(* what a commit that is refused at admission looks like *)
+Definition commit_rejected (n n' : net) (st st' : qchannel) (r : commit_result) : Prop :=
+  n' = n /\ st' = st /\ exists e, r = CErr e.
+
+(* the complete admission analysis of Commit *)
+Lemma Commit_admission cfg n st local p n' st' r :
+  Commit cfg n st local p = (n', st', r) ->
+  (* refused before any state is read or written *)
+  (commit_rejected n n' st st' r /\
+     (r = CErr EInvalid \/
+      ((qc_ready st = false \/ qc_auth st = None) /\ r = CErr ENotReady) \/
+      (exists a, qc_auth st = Some a /\ pr_expected p <> a_id a /\ r = CErr EStale) \/
+      (exists a, qc_auth st = Some a /\ a_wf a = true /\ r = CErr EFenced)))
+  \/
+  (* admitted: ready, expected authority = installed authority, no fence *)
+  (exists a, qc_ready st = true /\ qc_auth st = Some a /\ pr_expected p = a_id a /\ a_wf a = false /\
+     same_admission st st' /\
+     (retained_auth (a_id a) st -> retained_auth (a_id a) st' /\ forall rc, r = COk rc -> rc_auth rc = a_id a) /\
+     (qc_pending st' <> None -> qc_ready st' = true)).
+Proof.
+  unfold Commit.
+  destruct (authid_eqb (pr_expected p) authid_zero || tag_is_zero (pr_cmd p) || (lenN (pr_records p) =? 0) ||
+            (cf_maxrecs cfg <? lenN (pr_records p)) || negb (validProposalRecords (pr_records p))).
+  { intro H. inversion H; subst. left. split; [repeat split; eauto|]. left. reflexivity. }
+  destruct (qc_ready st) eqn:Hrd; cbn [negb].
+  2:{ intro H. inversion H; subst. left. split; [repeat split; eauto|]. right. left. auto. }
+  destruct (qc_auth st) as [a|] eqn:Hau.
+  2:{ intro H. inversion H; subst. left. split; [repeat split; eauto|]. right. left. auto. }
+  destruct (authid_eqb (pr_expected p) (a_id a)) eqn:Hex; cbn [negb].
+  2:{ intro H. inversion H; subst. left. split; [repeat split; eauto|]. right. right. left.
+      exists a. split; [reflexivity|]. split; [apply authid_eqb_neq; exact Hex | reflexivity]. }
+  apply authid_eqb_eq in Hex.
+  destruct (a_wf a) eqn:Hwf.
+  { intro H. inversion H; subst. left. split; [repeat split; eauto|]. right. right. right. exists a. auto. }
+  intro H. right. exists a.
+  split; [first [reflexivity | assumption]|]. split; [first [reflexivity | assumption]|]. split; [exact Hex|]. split; [first [reflexivity | assumption]|].
+  (* the admitted part: three facts about (st', r) *)
+  assert (Hgoal : same_admission st st' /\
+     (retained_auth (a_id a) st -> retained_auth (a_id a) st' /\ forall rc, r = COk rc -> rc_auth rc = a_id a) /\
+     (qc_pending st' <> None -> qc_ready st' = true)); [| exact Hgoal].
+  destruct (get_retained (qc_retained st) (pr_cmd p)) as [rt|] eqn:Hget.
+  - destruct (negb (sameProposalContent (rt_prop rt) (pr_records p))).
+    { inversion H; subst. split; [apply same_admission_refl|]. split; [|intros _; exact Hrd].
+      intro HF. split; [exact HF|]. intros rc Hrc. discriminate. }
+    destruct (rt_durable rt).
+    { inversion H; subst. split; [apply same_admission_refl|]. split; [|intros _; exact Hrd].
+      intro HF. split; [exact HF|]. intros rc Hrc. inversion Hrc; subst.
+      destruct (get_retained_In _ _ _ Hget) as [c' Hin].
+      unfold retained_auth in HF. rewrite Forall_forall in HF. exact (HF _ Hin). }
+    destruct (retryPending_facts _ _ _ _ _ _ _ _ _ H) as (Hs & Hp & Hk & Hrc).
+    split; [exact Hs|]. split; [auto|]. intros _. destruct Hs as [_ Hs]. rewrite Hs. exact Hrd.
+  - destruct (qc_pending st) as [pend|] eqn:Hpend.
+    + destruct (tag_eqb (m_cmd (dp_manifest (rt_prop pend))) (pr_cmd p)).
+      * destruct (negb (sameProposalContent (rt_prop pend) (pr_records p))).
+        { inversion H; subst. split; [apply same_admission_refl|]. split; [|intros _; exact Hrd].
+          intro HF. split; [exact HF|]. intros rc Hrc. discriminate. }
+        destruct (retryPending_facts _ _ _ _ _ _ _ _ _ H) as (Hs & Hp & Hk & Hrc).
+        split; [exact Hs|]. split; [auto|]. intros _. destruct Hs as [_ Hs]. rewrite Hs. exact Hrd.
+      * inversion H; subst. split; [apply same_admission_refl|]. split; [|intros _; exact Hrd].
+        intro HF. split; [exact HF|]. intros rc Hrc. discriminate.
+    + destruct (sealBusinessProposal a (qc_frontier st) (qc_hw st) (pr_cmd p) (pr_records p) (pr_sa p)) as [d|].
+      2:{ inversion H; subst. split; [apply same_admission_refl|]. split; [|intros _; exact Hrd].
+          intro HF. split; [exact HF|]. intros rc Hrc. discriminate. }
+      destruct (runDurableRound n local (a_voters a) (a_q a) (cf_rot cfg) d) as [n1 res].
+      set (st1 := set_pending st (Some (Retained d receipt_zero false))) in *.
+      assert (Hs1 : same_admission st st1) by (split; reflexivity).
+      assert (Hr1 : retained_auth (a_id a) st -> retained_auth (a_id a) st1) by (intro HF; exact HF).
+      destruct (negb (rr_ok res)).
+      * destruct (rr_outcome res);
+          try (inversion H; subst; split; [exact Hs1|]; split; [|intros _; destruct Hs1 as [_ Hq]; rewrite Hq; exact Hrd];
+               intro HF; split; [exact (Hr1 HF)|]; intros rc Hrc; discriminate).
+        destruct (reconcileCommandConflict cfg n1 (set_pending st1 None) a local p) as [st3 out] eqn:Hrec.
+        inversion H; subst. destruct (reconcile_facts _ _ _ _ _ _ _ _ Hrec) as ([Hsa Hsr] & Hp & Hk & Hrc).
+        split; [split; [rewrite Hsa | rewrite Hsr]; reflexivity|].
+        split; [intro HF; split; [apply Hk; exact HF | exact Hrc]|].
+        intros _. rewrite Hsr. exact Hrd.
+      * destruct (finishCommit cfg st1 a (Retained d receipt_zero false) res) as [st2 out] eqn:Hf.
+        inversion H; subst. destruct (finishCommit_facts _ _ _ _ _ _ _ Hf) as ([Hsa Hsr] & Hp & Hk & Hrc).
+        split; [split; [rewrite Hsa | rewrite Hsr]; reflexivity|].
+        split; [intro HF; split; [apply Hk; exact HF | exact Hrc]|].
+        intros _. rewrite Hsr. exact Hrd.
+Qed.
+
+Lemma Commit_keeps_admission cfg n st local p n' st' r :
+  Commit cfg n st local p = (n', st', r) -> same_admission st st'.
+Proof.
+  intro H. apply Commit_admission in H.
+  destruct H as [((_ & -> & _) & _) | (a & _ & _ & _ & _ & Hs & _)]; [apply same_admission_refl | exact Hs].
+Qed.
+
+Lemma Commit_preserves_inv cfg n st local p n' st' r :
+  owner_inv st -> Commit cfg n st local p = (n', st', r) -> owner_inv st'.
+Proof.
+  intros Hinv H. apply Commit_admission in H.
+  destruct H as [((_ & -> & _) & _) | (a & Hrd & Hau & _ & Hwf & [Hsa Hsr] & Hk & Hp)]; [exact Hinv|].
+  destruct Hinv as (I1 & I2 & I3 & I4).
+  destruct (Hk (I4 _ Hau)) as [HF _].
+  split; [|split; [|split]].
+  - intros _. exists a. rewrite Hsa. auto.
+  - exact Hp.
+  - intros _. rewrite Hsr. exact Hrd.
+  - intros a0 Ha0. rewrite Hsa, Hau in Ha0. inversion Ha0; subst. exact HF.
+Qed.
+
+(* a receipt is only ever issued by a ready owner, under its installed, unfenced authority,
+   which is the authority the proposal expected *)
+Lemma Commit_receipt_authority cfg n st local p n' st' rc :
+  owner_inv st -> Commit cfg n st local p = (n', st', COk rc) ->
+  qc_ready st = true /\ exists a, qc_auth st = Some a /\ a_wf a = false /\
+                                  pr_expected p = a_id a /\ rc_auth rc = a_id a.
+Proof.
+  intros Hinv H. apply Commit_admission in H.
+  destruct H as [((_ & _ & e & He) & _) | (a & Hrd & Hau & Hex & Hwf & _ & Hk & _)]; [discriminate|].
+  split; [exact Hrd|]. exists a. repeat (split; [assumption|]).
+  destruct Hinv as (_ & _ & _ & I4). destruct (Hk (I4 _ Hau)) as [_ Hrc]. apply Hrc. reflexivity.
+Qed.
+
+(* a commit under any other authority than the installed one, on a fenced authority, or on
+   an owner that is not ready, is refused and changes nothing *)
+Lemma Commit_stale_rejected cfg n st local p a n' st' r :
+  qc_auth st = Some a -> (pr_expected p <> a_id a \/ a_wf a = true \/ qc_ready st = false) ->
+  Commit cfg n st local p = (n', st', r) ->
+  n' = n /\ st' = st /\
+  (r = CErr EInvalid \/ r = CErr ENotReady \/ r = CErr EStale \/ r = CErr EFenced).
+Proof.
+  intros Hau Hbad H. apply Commit_admission in H.
+  destruct H as [((-> & -> & _) & Hr) | (a' & Hrd & Hau' & Hex & Hwf & _)].
+  - split; [reflexivity|]. split; [reflexivity|].
+    destruct Hr as [-> | [(_ & ->) | [(x & _ & _ & ->) | (x & _ & _ & ->)]]]; auto.
+  - exfalso. rewrite Hau in Hau'. inversion Hau'; subst a'.
+    destruct Hbad as [Hb | [Hb | Hb]]; congruence.
+Qed.
+
+(* ---- association lists ------------------------------------------------------------------------ *)
+
+Lemma c04_get_put l v s v' : c04_get (c04_put l v s) v' = if v' =? v then s else c04_get l v'.
+Proof.
+  induction l as [|[w t] l IH]; cbn.
+  - destruct (v' =? v); reflexivity.
+  - destruct (v =? w) eqn:E; cbn.
+    + apply N.eqb_eq in E. subst w. destruct (v' =? v); reflexivity.
+    + destruct (v' =? w) eqn:E2.
+      * apply N.eqb_eq in E2. subst w. rewrite N.eqb_sym, E. reflexivity.
+      * exact IH.
+Qed.
+
+Lemma get_owner_put l v s v' : get_owner (put_owner l v s) v' = if v' =? v then s else get_owner l v'.
+Proof.
+  induction l as [|[w t] l IH]; cbn.
+  - destruct (v' =? v); reflexivity.
+  - destruct (v =? w) eqn:E; cbn.
+    + apply N.eqb_eq in E. subst w. destruct (v' =? v); reflexivity.
+    + destruct (v' =? w) eqn:E2.
+      * apply N.eqb_eq in E2. subst w. rewrite N.eqb_sym, E. reflexivity.
+      * exact IH.
+Qed.
+
+Lemma get_owner_init (vs : list N) v : get_owner (map (fun x => (x, qchannel_empty)) vs) v = qchannel_empty.
+Proof. induction vs as [|w vs IH]; cbn; [reflexivity|]. destruct (v =? w); [reflexivity | exact IH]. Qed.
+
+(* ---- the monitor accepts every trace of the model ------------------------------------------------- *)
+
+Fixpoint model_trace (cfg : qconfig) (c : cluster) (ops : list qop) : list (qop * qres) :=
+  match ops with
+  | [] => []
+  | op :: rest => let '(c', r) := q_step cfg c op in (op, r) :: model_trace cfg c' rest
+  end.
+
+(* monitor state of a node versus the model's owner of that node *)
+Definition c04_rel (s : c04_node) (st : qchannel) : Prop :=
+  owner_inv st /\
+  (cn_hi s = None -> qc_ready st = false) /\
+  (forall h, cn_hi s = Some h ->
+     exists a, qc_auth st = Some a /\ aid_le h (a_id a) /\ (qc_ready st = true -> a_id a = h)) /\
+  (cn_blocked s = true -> qc_ready st = false).
+
+Lemma c04_rel_init : c04_rel c04_node_init qchannel_empty.
+Proof.
+  split; [apply owner_inv_empty|]. split; [reflexivity|]. split; [intros h Hh; discriminate | reflexivity].
+Qed.
+
+Lemma c04_rel_same s st st' :
+  c04_rel s st -> owner_inv st' -> same_admission st st' -> c04_rel s st'.
+Proof.
+  intros (I & R1 & R2 & R3) I' [Ha Hr]. split; [exact I'|]. rewrite Hr, Ha. auto.
+Qed.
+
+(* an Install that failed, or did nothing, keeps the relation with the same [hi];
+   [blocked] may be set when the answer was ErrWriteFenced *)
+Lemma c04_rel_install_err cfg n st local a n' st' e s b :
+  c04_rel s st -> Install cfg n st local a = (n', st', IErr e) ->
+  (b = true -> cn_blocked s = true \/ e = EFenced) -> (b = false -> cn_blocked s = false) ->
+  c04_rel (C04Node (cn_hi s) b) st'.
+Proof.
+  intros (I & R1 & R2 & R3) H Hb1 Hb2.
+  pose proof (Install_preserves_inv _ _ _ _ _ _ _ _ I H) as I'.
+  pose proof (Install_authority_monotone _ _ _ _ _ _ _ _ H) as Hmono.
+  apply Install_shape in H. apply install_shape_err in H.
+  destruct H as [(-> & _ & Hcase) | (Hbase & _)].
+  - (* owner untouched *)
+    split; [exact I|]. split; [exact R1|]. split; [exact R2|]. cbn. intro Hbt.
+    destruct (Hb1 Hbt) as [Hbl | ->]; [auto|].
+    destruct Hcase as [He | [(cur & _ & _ & He) | [(cur & _ & _ & _ & He) | (cur & Ha & _ & Hs & Hwf & _)]]];
+      try discriminate.
+    destruct (qc_ready st) eqn:Hrd; [|reflexivity].
+    destruct I as (I1 & _). destruct (I1 Hrd) as (a0 & Ha0 & Hwf0).
+    rewrite Ha in Ha0. inversion Ha0; subst a0. rewrite <- (sameAuthority_wf _ _ Hs) in Hwf0. congruence.
+  - destruct (install_base_auth _ _ _ Hbase) as (b0 & Hb01 & Hb02 & Hb03 & Hle & Hnr & _).
+    split; [exact I'|]. split; [intros _; exact Hnr|]. split; [|intros _; exact Hnr].
+    cbn. intros h Hh. destruct (R2 _ Hh) as (a0 & Ha0 & Hle0 & _).
+    exists b0. split; [exact Hb01|]. split; [|rewrite Hnr; discriminate].
+    rewrite Ha0, Hb01 in Hle. cbn in Hle. eapply aid_le_trans; eauto.
+Qed.
+
+Lemma c04_step_model cfg c op ms :
+  (forall v, c04_rel (c04_get ms v) (get_owner (cl_owners c) v)) ->
+  let '(c', r) := q_step cfg c op in
+  exists ms', c04_step ms op r = Some ms' /\
+              forall v, c04_rel (c04_get ms' v) (get_owner (cl_owners c') v).
+Proof.
+  intro Hrel. destruct op as [node aid wf q f | node expected cmd recs sa f | node | node | node | l fo fr th | node hw];
+    cbn [q_step].
+  - (* Install *)
+    destruct (Install cfg (with_faults (cl_net c) f) (get_owner (cl_owners c) node) node
+                      (Auth aid node (voters_of cfg) q wf)) as [[n' st'] r] eqn:HI.
+    cbn [c04_step cl_owners]. specialize (Hrel node) as Hn.
+    destruct r as [e | x leo hw].
+    + destruct (e =? EFenced) eqn:He.
+      * eexists. split; [reflexivity|]. intro v. rewrite c04_get_put, get_owner_put.
+        destruct (v =? node) eqn:Ev; [|apply Hrel].
+        apply (c04_rel_install_err _ _ _ _ _ _ _ _ _ true Hn HI).
+        -- intros _. right. apply N.eqb_eq. exact He.
+        -- discriminate.
+      * exists ms. split; [reflexivity|]. intro v. rewrite get_owner_put.
+        destruct (v =? node) eqn:Ev; [|apply Hrel]. apply N.eqb_eq in Ev. subst v.
+        replace (c04_get ms node) with (C04Node (cn_hi (c04_get ms node)) (cn_blocked (c04_get ms node)))
+          by (destruct (c04_get ms node); reflexivity).
+        apply (c04_rel_install_err _ _ _ _ _ _ _ _ _ (cn_blocked (c04_get ms node)) Hn HI).
+        -- intro Hb. left. exact Hb.
+        -- auto.
+    + destruct (Install_ok _ _ _ _ _ _ _ _ _ _ HI) as (Hx & Hwf & Hrd & (b & Hb1 & Hb2 & Hb3) & Hle).
+      cbn [a_id a_wf] in Hx, Hwf, Hb2, Hle. subst x wf.
+      destruct Hn as (I & R1 & R2 & R3).
+      assert (Hhi : match cn_hi (c04_get ms node) with Some h => authid_ltb aid h | None => false end = false).
+      { destruct (cn_hi (c04_get ms node)) as [h|] eqn:Hh; [|reflexivity].
+        destruct (R2 _ eq_refl) as (a0 & Ha0 & Hle0 & _).
+        destruct (authid_ltb aid h) eqn:El; [|reflexivity].
+        apply authid_ltb_spec in El. exfalso.
+        exact (aid_le_not_lt _ _ (aid_le_trans _ _ _ Hle0 (Hle _ Ha0)) El). }
+      rewrite authid_eqb_refl, Hhi. cbn [negb orb].
+      eexists. split; [reflexivity|]. intro v. rewrite c04_get_put, get_owner_put.
+      destruct (v =? node) eqn:Ev; [|apply Hrel].
+      split; [eapply Install_preserves_inv; eauto|]. cbn.
+      split; [discriminate|]. split; [|discriminate].
+      intros h Hh. inversion Hh; subst h. exists b. split; [exact Hb1|]. split; [rewrite Hb2; apply aid_le_refl|].
+      intros _. exact Hb2.
+  - (* Commit *)
+    destruct (Commit cfg (with_faults (cl_net c) f) (get_owner (cl_owners c) node) node
+                     (Proposal expected cmd recs sa)) as [[n' st'] r] eqn:HC.
+    cbn [c04_step cl_owners]. specialize (Hrel node) as Hn. destruct Hn as (I & R1 & R2 & R3).
+    assert (Hkeep : forall v, c04_rel (c04_get ms v) (get_owner (put_owner (cl_owners c) node st') v)).
+    { intro v. rewrite get_owner_put. destruct (v =? node) eqn:Ev; [|apply Hrel].
+      apply N.eqb_eq in Ev. subst v.
+      eapply c04_rel_same; [apply Hrel | eapply Commit_preserves_inv; eauto | eapply Commit_keeps_admission; eauto]. }
+    destruct r as [e | rc].
+    + exists ms. split; [reflexivity | exact Hkeep].
+    + destruct (Commit_receipt_authority _ _ _ _ _ _ _ _ I HC) as (Hrd & a & Ha & Hwf & Hex & Hrc).
+      cbn [pr_expected] in Hex.
+      assert (Hb : cn_blocked (c04_get ms node) = false).
+      { destruct (cn_blocked (c04_get ms node)); [|reflexivity]. rewrite (R3 eq_refl) in Hrd. discriminate. }
+      destruct (cn_hi (c04_get ms node)) as [h|] eqn:Hh.
+      2:{ rewrite (R1 eq_refl) in Hrd. discriminate. }
+      destruct (R2 _ eq_refl) as (a0 & Ha0 & _ & Heq). rewrite Ha in Ha0. inversion Ha0; subst a0.
+      specialize (Heq Hrd).
+      rewrite Hb, Hrc, Hex, Heq, authid_eqb_refl. cbn [negb orb].
+      exists ms. split; [reflexivity | exact Hkeep].
+  - exists ms. split; [reflexivity | exact Hrel].
+  - exists ms. split; [reflexivity | exact Hrel].
+  - (* restart *)
+    eexists. split; [reflexivity|]. cbn [cl_owners]. intro v. rewrite c04_get_put, get_owner_put.
+    destruct (v =? node); [apply c04_rel_init | apply Hrel].
+  - destruct (RepairFollower cfg (cl_net c) l fo fr th) as [n' ok]. exists ms. split; [reflexivity | exact Hrel].
+  - exists ms. split; [reflexivity | exact Hrel].
+Qed.
+
+Lemma c04_run_model cfg ops : forall c ms,
+  (forall v, c04_rel (c04_get ms v) (get_owner (cl_owners c) v)) ->
+  c04_run ms (model_trace cfg c ops) = true.
+Proof.
+  induction ops as [|op ops IH]; intros c ms Hrel; cbn; [reflexivity|].
+  pose proof (c04_step_model cfg c op ms Hrel) as Hs.
+  destruct (q_step cfg c op) as [c' r]. destruct Hs as (ms' & Hstep & Hrel').
+  cbn. rewrite Hstep. apply IH. exact Hrel'.
+Qed.
+
+(* every schedule: the trace the model produces from the initial cluster satisfies C04 *)
+Lemma model_satisfies_c04 cfg ops : c04_holds (model_trace cfg (cluster_init cfg) ops) = true.
+Proof.
+  unfold c04_holds. apply c04_run_model. intro v. cbn. rewrite get_owner_init. apply c04_rel_init.
+Qed.
+
+(* ---- termination: the round loop never runs out of fuel ------------------------------------------- *)
+
+Lemma submit_all_length n local p vs : forall q n' q',
+  submit_all n local p vs q = (n', q') -> length q' = (length q + length vs)%nat.
+Proof.
+  revert n. induction vs as [|v vs IH]; intros n q n' q' H; cbn in H.
+  - inversion H; subst. cbn. lia.
+  - destruct (submitReplica n local v p) as [n1 o]. apply IH in H. rewrite app_length in H. cbn in *. lia.
+Qed.
+
+(* with enough fuel for the completions still to be consumed, more fuel changes nothing *)
+Lemma round_loop_fuel : forall f1 f2 n local wq p queue next ld votes out cf lf,
+  (length queue + length next < f1)%nat -> (length queue + length next < f2)%nat ->
+  round_loop f1 n local wq p queue next ld votes out cf lf =
+  round_loop f2 n local wq p queue next ld votes out cf lf.
+Proof.
+  induction f1 as [|f1 IH]; intros f2 n local wq p queue next ld votes out cf lf H1 H2; [lia|].
+  destruct f2 as [|f2]; [lia|]. cbn [round_loop].
+  destruct queue as [|[isLocal o] queue']; [reflexivity|]. cbn [length] in H1, H2.
+  destruct ((ld || outcome_durable o && isLocal) && (wq <=? (if outcome_durable o then votes + 1 else votes)));
+    [reflexivity|].
+  destruct (isLocal && negb (outcome_durable o)).
+  - destruct (submit_all n local p next queue') as [n1 q1] eqn:Hs.
+    apply submit_all_length in Hs. apply IH; cbn; lia.
+  - destruct (negb lf && negb isLocal && negb (outcome_durable o)).
+    + destruct next as [|v next'].
+      * apply IH; cbn in *; lia.
+      * destruct (submitReplica n local v p) as [n1 o1]. apply IH; rewrite app_length; cbn in *; lia.
+    + apply IH; lia.
+Qed.
+
+Lemma rotate_length {A} (k : nat) : forall l : list A, length (rotate l k) = length l.
+Proof.
+  induction k as [|k IH]; intro l; cbn; [reflexivity|].
+  destruct l as [|x r]; [reflexivity|]. rewrite IH, app_length. cbn. lia.
+Qed.
+
+Lemma round_followers_length voters local rot : (length (round_followers voters local rot) <= length voters)%nat.
+Proof.
+  unfold round_followers.
+  assert (H : (length (filter (fun v => negb (N.eqb v local)) voters) <= length voters)%nat).
+  { induction voters as [|v vs IH]; cbn; [lia|]. destruct (negb (v =? local)); cbn; lia. }
+  destruct (1 <? lenN (filter (fun v => negb (v =? local)) voters)); [rewrite rotate_length|]; exact H.
+Qed.
+
+(* runDurableRound with its own fuel equals the same loop with any larger fuel: the
+   out-of-fuel branch of [round_loop] is never taken *)
+Lemma runDurableRound_fuel_sufficient n local voters wq rot p k :
+  runDurableRound n local voters wq rot p =
+  (let fs := round_followers voters local rot in
+   let '(n1, o1) := submitLocal n local p in
+   let '(n2, queue) := submit_all n1 local p (firstn (N.to_nat (wq - 1)) fs) [(true, o1)] in
+   round_loop (S (S (length voters)) + k) n2 local wq p queue (skipn (N.to_nat (wq - 1)) fs)
+              false 0 ONotWritten false false).
+Proof.
+  unfold runDurableRound. cbv zeta.
+  destruct (submitLocal n local p) as [n1 o1].
+  destruct (submit_all n1 local p (firstn (N.to_nat (wq - 1)) (round_followers voters local rot)) [(true, o1)])
+    as [n2 queue] eqn:Hs.
+  apply submit_all_length in Hs. cbn [length] in Hs.
+  pose proof (round_followers_length voters local rot) as Hl.
+  pose proof (firstn_skipn (N.to_nat (wq - 1)) (round_followers voters local rot)) as Hfs.
+  apply (f_equal (@length N)) in Hfs. rewrite app_length in Hfs.
+  apply round_loop_fuel; lia.
 Qed.
